@@ -210,6 +210,7 @@ def check_cf_interpolate(ctx):
                          '_error': symarr('err', (M, A), unit=mJy), '_wavelength': scalar(sym('cw'), sym('unit:micron'))})
     h = H()
     I = Interp(repo, h)
+    I.exact_le = True          # clamping makes requests *equal* to the table maximum: <= and < are kept apart
     out = I.call(fi, [symarr('q', (D,), unit=au)], selfv=mk())
     q, cap = sym('q', D), sym('cap', A)
     mx = mk_fn('max', B(A, cap))
